@@ -42,9 +42,37 @@ def plan(tier, seed):
         specs.append({"klass": "shape_single", "i": 5000 + i, "backend": "numpy", "shape_opt": "single", "alias": ENUM_ALIASES[i % 2]})
     for i in range(9 if tier == "quick" else 60):
         specs.append({"klass": "many_states", "i": 6000 + i, "backend": ("jax", "numpy", "c")[i % 3], "n_states": 12 + i % 3, "alias": ENUM_ALIASES[i % 2], "soft_timeout": 300})
+    for i in range(12 if tier == "quick" else 80):
+        # a model revised and translated again in the same process under the same name: the same states in another dependency
+        # order (one derivative reads another), the earlier revisions' code is generated first and discarded
+        specs.append({"klass": "revisions", "i": 7000 + i, "backend": ("numpy", "c", "jax")[i % 3], "alias": ENUM_ALIASES[i % 2], "remove_unused": i % 4 == 3})
     for s in specs:
         s["prop"] = ID
     return specs
+
+
+def revision_texts(rng, n_rev=3):
+    """n_rev texts with the same states and parameters; in each, the derivatives form a chain in another random order
+    (d<pi_k>_dt reads d<pi_(k-1)>_dt), which changes the dependency order of the states between revisions."""
+    n = rng.choice([2, 3, 4])
+    st = [f"x{i}" for i in range(n)]
+    head = "parameters(a=1.5, b=0.25, c=-0.75)\nstates(" + ", ".join(f"{s}={v}" for s, v in zip(st, [1.0, 2.0, -0.5, 0.25])) + ")\n"
+    texts, seen = [], set()
+    while len(texts) < n_rev:
+        pi = st[:]
+        rng.shuffle(pi)
+        if tuple(pi) in seen and len(seen) < math.factorial(n):
+            continue
+        seen.add(tuple(pi))
+        lines = []
+        for k, s in enumerate(pi):
+            o = rng.choice([q for q in st if q != s])
+            e = rng.choice([f"a * {o} - b * {s}", f"-b * {s} + c", f"a * {o} * {s} + 0.5", f"c * {o} + sin({s})"])
+            if k > 0 and rng.random() < 0.8:
+                e += f" + {rng.choice(['0.5 * ', '', '-2 * '])}d{pi[k - 1]}_dt"
+            lines.append(f"d{s}_dt = {e}")
+        texts.append(head + "\n".join(lines) + "\n")
+    return texts
 
 
 def direct_alias_module(ode, alias, remove_unused=False):
@@ -66,6 +94,10 @@ def run_case(spec, ctx):
         text = open(os.path.join(env.REPO, spec["file"])).read()
     else:
         kw = {"n_states": spec["n_states"], "n_inter": 6} if spec.get("n_states") else {}
+        prelude = []
+        if spec["klass"] == "revisions":
+            *prelude, last = revision_texts(rng)
+            spec = dict(spec, text=last)
         text = spec.get("text") or models.gen_model(rng, Profile(hard_lits=False), depth=rng.choice([2, 3]) if not kw else 2, **kw).render(rng)
     out["hash"] = models.structural_hash(text) + ":" + spec["backend"]
     try:
@@ -84,6 +116,12 @@ def run_case(spec, ctx):
     be = spec["backend"]
     alias = spec.get("alias", "explicit_euler")
     rm = bool(spec.get("remove_unused"))
+    if spec["klass"] != "corpus":
+        for t0 in prelude:
+            l0 = C.load_text(t0)
+            if l0.ok:
+                g0 = B.generate(be, l0.value, schemes=[alias], remove_unused=rm)
+                cn["earlier_revisions_generated"] = cn.get("earlier_revisions_generated", 0) + int(g0.ok)
     mods = []
     try:
         if spec["klass"] == "alias_direct":
